@@ -709,6 +709,13 @@ func (o regOp) String() string {
 
 type regClient struct{ id string }
 
+// regValueClient is a client that is a plain value of a type that cannot be compared (it has a func field): the router
+// holds clients as `any` and has no business comparing them.
+type regValueClient struct {
+	id string
+	fn func()
+}
+
 func routeRegistryRun(w *World) {
 	t := w.Tape
 	hasFactory, hasFallback := t.Flag(2, 3), t.Flag(1, 3)
@@ -723,7 +730,18 @@ func routeRegistryRun(w *World) {
 		if c == nil {
 			return ""
 		}
+		if v, ok := c.(regValueClient); ok {
+			return v.id
+		}
 		return c.(*regClient).id
+	}
+	// (in one run of four the clients that callers add are values of an uncomparable type)
+	valueClients := t.Flag(1, 4)
+	mkAdded := func(id string) any {
+		if valueClients {
+			return regValueClient{id: id, fn: func() {}}
+		}
+		return &regClient{id: id}
 	}
 	var opts []router.Option
 	// the factory records which call it was invoked for through a per-task slot
@@ -799,7 +817,7 @@ func routeRegistryRun(w *World) {
 				x := rec{task: tn, op: o, inv: w.Step()}
 				switch o.Kind {
 				case "add":
-					x.res.Client = idOf(r.Add(o.Name, &regClient{id: o.Client}))
+					x.res.Client = idOf(r.Add(o.Name, mkAdded(o.Client)))
 				case "remove":
 					x.res.Client = idOf(r.Remove(o.Name))
 				case "has":
